@@ -7,6 +7,7 @@ replacements, copy, deepcopy); after every operation the instance must be observ
 "equality": the full pair matrix of all instances.
 """
 
+import collections.abc
 import copy
 import itertools
 from collections.abc import Mapping, Sequence, Set
@@ -181,11 +182,49 @@ CATALOGUE: dict[str, tuple[type, list]] = {
     "AnyS": (AnyS, [lambda: {"v": [1, 2, 3]}, lambda: {"v": {"k": [1]}, "w": [4]}, lambda: {"v": range(3)}]),
 }
 
+def hook_one(x):
+    raise AssertionError("a stored callable must never be called by the library")
+
+
+def hook_two(x):
+    raise AssertionError("a stored callable must never be called by the library")
+
+
+class _TheRunner:
+    """a protocol object with identity semantics that survives copying as itself"""
+
+    def run(self) -> int:
+        raise AssertionError("never called by the library")
+
+    def __copy__(self):
+        return self
+
+    def __deepcopy__(self, memo):
+        return self
+
+    def __repr__(self) -> str:
+        return "TheRunner()"
+
+
+RUNNER_A, RUNNER_B = _TheRunner(), _TheRunner()
+
+
+class Hooks(State):
+    """attributes that HOLD callables / protocol objects / arbitrary objects: a callable given as a
+    replacement is a value to be stored, not something to be called"""
+
+    cb: "collections.abc.Callable[[int], int] | None" = None
+    runner: ak.Runner | None = None
+    anyv: Any = None
+    n: int = 0
+
+
 # LONG containers (16, 17, 40, 300 elements; long inner containers): an implementation that treats
 # big payloads differently (sharing instead of copying, chunked conversion) must still detach the
 # instance from the caller's containers
 CATALOGUE.update(
     {
+        "Hooks": (Hooks, [lambda: {}, lambda: {"cb": hook_one, "anyv": hook_one, "runner": RUNNER_A, "n": 1}]),
         "SeqS/long": (SeqS, [lambda: {"items": list(range(16))}, lambda: {"items": list(range(17))}, lambda: {"items": list(range(40))}, lambda: {"items": list(range(300))}]),
         "SetS/long": (SetS, [lambda: {"tags": {f"t{i}" for i in range(17)}}, lambda: {"tags": {f"t{i}" for i in range(70)}}]),
         "MapS/long": (MapS, [lambda: {"m": {f"k{i}": i for i in range(17)}}, lambda: {"m": _proxy({f"k{i}": i for i in range(33)})}]),
@@ -232,6 +271,7 @@ REPLACE: dict[str, dict[str, tuple]] = {
 
 REPLACE.update(
     {
+        "Hooks": {"cb": (lambda: hook_two, 7, 0), "anyv": (lambda: hook_two, None, None), "runner": (lambda: RUNNER_B, 7, 0)},
         "SeqS/long": {"items": (lambda: list(range(100, 120)), list(range(19)) + ["bad"], 0)},
         "SetS/long": {"tags": (lambda: {f"z{i}" for i in range(18)}, {f"z{i}" for i in range(18)} | {1}, 0)},
         "MapS/long": {"m": (lambda: {f"z{i}": i for i in range(18)}, {**{f"z{i}": i for i in range(18)}, "k": "bad"}, 0)},
@@ -427,6 +467,10 @@ def execute(program, ch: Chooser) -> Result:  # noqa: C901, PLR0912, PLR0915
                 ops.append((f"updated {subset[0]}=MISSING", ("upd", subset, ("missing", subset[0]))))
                 # ... also when the caller writes Missing() instead of the constant (same object)
                 ops.append((f"updated {subset[0]}=Missing()", ("upd", subset, ("missing-call", subset[0]))))
+            if len(subset) == 1 and isinstance(rep[subset[0]][1], (list, dict, set)) and type(rep[subset[0]][1]) is type(rep[subset[0]][0]()):
+                # an invalid container is rejected, the caller REPAIRS that very object in place
+                # and tries again: the second attempt is a valid update like any other
+                ops.append((f"updated {subset[0]} invalid-then-repaired", ("upd-repair", subset[0])))
             if len(subset) == 1 and _equal_but_invalid(getattr(inst, subset[0], None)) is not None:
                 # a replacement that compares == to the current value but has a type the
                 # annotation rejects (1.0 for 1, (1.0, 2.0) for (1, 2) ...) must be re-validated
@@ -506,6 +550,28 @@ def execute(program, ch: Chooser) -> Result:  # noqa: C901, PLR0912, PLR0915
             except Exception as exc:  # noqa: BLE001
                 if not expect_fail:
                     viols.append(viol("updated", "valid-rejected", "an updated copy", f"{type(exc).__name__}: {exc}"[:140], history=hist))
+        elif kind == "upd-repair":
+            touched = True
+            a_ = op[1]
+            box = copy.deepcopy(rep[a_][1])
+            good = rep[a_][0]()
+            try:
+                inst.updated(**{a_: box})
+                viols.append(viol("updated", "invalid-accepted", "raises", "accepted", history=hist))
+            except Exception:  # noqa: BLE001
+                box.clear()
+                if isinstance(box, list):
+                    box.extend(good)
+                else:
+                    box.update(good)
+                try:
+                    new = inst.updated(**{a_: box})
+                    base_args = {k: getattr(twin, k) for k in attrs if getattr(twin, k, MISSING) is not MISSING}
+                    fresh = cls(**{**base_args, a_: rep[a_][0]()})
+                    if not (new == fresh) or snap(new) != snap(fresh):
+                        viols.append(viol("updated", "wrong-copy/after-repair", snap(fresh), snap(new), history=hist))
+                except Exception as exc:  # noqa: BLE001
+                    viols.append(viol("updated", "valid-rejected/after-a-rejected-attempt-with-the-same-object", "an updated copy", f"{type(exc).__name__}: {exc}"[:140], history=hist))
         elif kind in ("copy", "deepcopy"):
             try:
                 c2 = copy.copy(inst) if kind == "copy" else copy.deepcopy(inst)
